@@ -84,39 +84,78 @@ func groupOfFacet(f string) string {
 	return groupOfColl(f)
 }
 
-// MakeScript is the abstract script of this family: a seed, the number of blocks before the export
-// and after the import, and (for a replay) the one facet to record.
-func MakeScript(seed int64, n, k int, tunnels, dkg bool, facet string) tf.Script {
-	c := tf.M{"seed": seed, "n": n, "k": k, "tunnels": tunnels, "dkg": dkg}
+// RunSpec is one run of a script: a seed, the number of blocks before the export and after the
+// import, and a profile.  The profile is a '+'-joined set of flags that switch parts of the generator on:
+//
+//	tunnels     tunnels are created, funded, activated, triggered
+//	dkg         a new signing group is proposed (MsgTransitionGroup): its DKG starts and nobody completes it
+//	transition  a transition to the second genesis group is proposed (MsgForceTransitionGroup)
+//	delimit     governance lowers tss MaxDESize to 1 after the members' nonce queues were filled
+//	plain       none of these
+//
+// The Export and Import lines of a run carry the flags as their tag (a function of the input only).
+type RunSpec struct {
+	Seed    int64
+	N, K    int
+	Profile string
+}
+
+func (r RunSpec) M() tf.M { return tf.M{"seed": r.Seed, "n": r.N, "k": r.K, "profile": r.Profile} }
+
+// MakeScript is the abstract script of this family: a list of runs and (for a replay) the one facet to
+// record.  A script is recorded once per facet: the trace of a facet holds that facet's view of every
+// run, one after the other ("chain.live", whose lines carry the profile tags, gets one trace per
+// profile).
+func MakeScript(runs []RunSpec, facet string) tf.Script {
+	var rs []interface{}
+	steps := []tf.M{}
+	for _, r := range runs {
+		rs = append(rs, r.M())
+		steps = append(steps, tf.M{"e": "Run", "n": r.N}, tf.M{"e": "Export"}, tf.M{"e": "Import"}, tf.M{"e": "Compare"}, tf.M{"e": "StepBoth", "k": r.K})
+	}
+	c := tf.M{"runs": rs}
 	if facet != "" {
 		c["facet"] = facet
 	}
-	return tf.Script{Fam: "Genesis", C: c, Steps: []tf.M{{"e": "Run", "n": n}, {"e": "Export"}, {"e": "Import"}, {"e": "Compare"}, {"e": "StepBoth", "k": k}}}
+	return tf.Script{Fam: "Genesis", C: c, Steps: steps}
 }
 
-func scriptSeed(sc tf.Script) int64 {
-	switch v := sc.C["seed"].(type) {
-	case float64:
-		return int64(v)
-	case int64:
-		return v
-	case int:
-		return int64(v)
-	}
-	return 1
-}
-
-// Plan: nrand scripts with different seeds and lengths.
-func Plan(nrand int, seed int64) []tf.Script {
-	var out []tf.Script
-	for i := 0; i < nrand; i++ {
-		n := []int{26, 34, 42, 30, 38, 48}[i%6]
-		// profiles: 0 full, 1 no tunnels, 2 neither, 3 no tunnels, 4 neither, 5 tunnels only
-		tunnels := i%6 == 0 || i%6 == 5
-		dkg := i%6 == 0 || i%6 == 1 || i%6 == 3
-		out = append(out, MakeScript(seed*1000+int64(i)+1, n, 6, tunnels, dkg, ""))
+func scriptRuns(sc tf.Script) []RunSpec {
+	var out []RunSpec
+	list, _ := sc.C["runs"].([]interface{})
+	for _, x := range list {
+		m, ok := x.(map[string]interface{})
+		if !ok {
+			continue
+		}
+		seed := int64(1)
+		switch v := m["seed"].(type) {
+		case float64:
+			seed = int64(v)
+		case int64:
+			seed = v
+		case int:
+			seed = int64(v)
+		}
+		out = append(out, RunSpec{Seed: seed, N: tf.Int(m, "n", 30), K: tf.Int(m, "k", 6), Profile: tf.Str(m, "profile", "plain")})
 	}
 	return out
+}
+
+// Plan: one script of nrand runs with different seeds, lengths and profiles.
+func Plan(nrand int, seed int64) []tf.Script {
+	var runs []RunSpec
+	for i := 0; i < nrand; i++ {
+		n := []int{26, 34, 42, 30, 38, 48}[i%6]
+		prof := []string{"tunnels+dkg", "transition", "plain", "dkg", "delimit", "tunnels", "plain", "transition"}[i%8]
+		runs = append(runs, RunSpec{Seed: seed*1000 + int64(i) + 1, N: n, K: 6, Profile: prof})
+	}
+	// the script is JSON round-tripped so that a planned script and a replayed one are read the same way
+	sc := MakeScript(runs, "")
+	bz, _ := json.Marshal(sc)
+	var out tf.Script
+	_ = json.Unmarshal(bz, &out)
+	return []tf.Script{out}
 }
 
 type blockObs struct {
@@ -288,17 +327,63 @@ func exportA(env *Env) (exp servertypes.ExportedApp, ok bool, detail string, bad
 	return exp, true, detail, bad
 }
 
-// RunScript executes one script and writes its facet traces.
+// runResult is what one run showed.
+type runResult struct {
+	spec                  RunSpec
+	aborted               bool
+	ntx, oktx             int
+	h                     int64
+	expOK, valid, initOK  bool
+	bad                   []string
+	expDetail, initDetail string
+	sa0, sb0              *Snapshot
+	blocks                []blockObs
+	diff                  []string
+	xtag, itag            string
+}
+
+// RunScript executes the runs of one script and writes the facet traces.
 func (d *Driver) RunScript(sc tf.Script) {
-	seed := scriptSeed(sc)
-	n, k := tf.Int(sc.C, "n", 30), tf.Int(sc.C, "k", 6)
 	only := tf.Str(sc.C, "facet", "")
-	d.Scripts++
+	var results []*runResult
+	for _, spec := range scriptRuns(sc) {
+		d.Scripts++
+		r := d.execRun(spec)
+		if r.aborted {
+			continue
+		}
+		results = append(results, r)
+	}
+	d.writeTraces(results, only)
+}
+
+// execRun: chain A for n blocks, export, import into chain B, k common blocks.
+func (d *Driver) execRun(spec RunSpec) *runResult {
+	seed, n, k, prof := spec.Seed, spec.N, spec.K, spec.Profile
+	r := &runResult{spec: spec, xtag: "-", itag: "-", diff: []string{}}
 	env := BuildEnv()
 	defer env.Close()
 	g := newGen(env, rand.New(rand.NewSource(seed)))
-	g.tunnels, g.dkg = tf.Bool(sc.C, "tunnels", true), tf.Bool(sc.C, "dkg", true)
-
+	g.tunnels, g.dkg = strings.Contains(prof, "tunnels"), strings.Contains(prof, "dkg")
+	g.transition, g.delimit = strings.Contains(prof, "transition"), strings.Contains(prof, "delimit")
+	g.n = n
+	// tags (functions of the run's profile only): an unfinished DKG can only exist in "dkg" runs, a waiting
+	// transition only in "transition"/"dkg" runs, a tunnel only in "tunnels" runs, an over-long nonce queue
+	// only in "delimit" runs
+	switch {
+	case g.dkg:
+		r.xtag = "dkg"
+	case g.transition:
+		r.xtag = "transition"
+	}
+	switch {
+	case g.tunnels && g.delimit:
+		r.itag = "tunnels+delimit"
+	case g.tunnels:
+		r.itag = "tunnels"
+	case g.delimit:
+		r.itag = "delimit"
+	}
 	ntxRun, okRun := 0, 0
 	runBlock := func(stage string) (dt int64, txs [][]byte, groups, kinds []string, res world.BlockResult) {
 		dt, acts := g.nextBlock(stage)
@@ -341,14 +426,26 @@ func (d *Driver) RunScript(sc tf.Script) {
 		if res.Err != "none" {
 			// a block of chain A failed before the export: that is property C02's subject, not this family's
 			d.Aborted++
-			d.note("script seed=%d aborted: block %d of chain A failed (%s: %s)", seed, res.Height, res.Err, trunc(res.Detail, 160))
-			return
+			d.note("run seed=%d aborted: block %d of chain A failed (%s: %s)", seed, res.Height, res.Err, trunc(res.Detail, 160))
+			r.aborted = true
+			return r
 		}
 	}
 	h := env.C.Height
-	votesAtExport := append([]abci.VoteInfo{}, env.C.Votes...)
-	_ = votesAtExport
 
+	if d.Debug {
+		ctx := env.C.Query()
+		tr, found := env.W.App.BandtssKeeper.GetGroupTransition(ctx)
+		fmt.Fprintf(os.Stderr, "at export h=%d: transition found=%v %+v\n", h, found, tr)
+		for _, gr := range env.W.App.TSSKeeper.GetGroups(ctx) {
+			fmt.Fprintf(os.Stderr, "  group %d status %s created %d\n", gr.ID, gr.Status, gr.CreatedHeight)
+		}
+		for _, id := range g.govIDs {
+			if p, err := env.W.App.GovKeeper.Proposals.Get(ctx, id); err == nil {
+				fmt.Fprintf(os.Stderr, "  proposal %d status %s failed=%q\n", id, p.Status, p.FailedReason)
+			}
+		}
+	}
 	// ---- Export
 	exp, expOK, expDetail, bad := exportA(env)
 	valid := expOK && len(bad) == 0
@@ -389,7 +486,9 @@ func (d *Driver) RunScript(sc tf.Script) {
 	if initOK {
 		appB := wb.App
 		hdr := wb.BaseHeader
-		sb0 = Take(func(mod string) storetypes.KVStore { return appB.NewContextLegacy(false, hdr).KVStore(appB.GetKey(mod)) })
+		sb0 = Take(func(mod string) storetypes.KVStore {
+			return appB.NewContextLegacy(false, hdr).KVStore(appB.GetKey(mod))
+		})
 		cb := &world.Chain{W: wb, Height: h, Time: env.C.Time}
 		for j := 0; j < k; j++ {
 			votes := append([]abci.VoteInfo{}, env.C.Votes...)
@@ -445,37 +544,103 @@ func (d *Driver) RunScript(sc tf.Script) {
 		d.Interest++
 	}
 
-	// ---- write one trace per facet
+	for kk, v := range g.Kinds {
+		d.Kinds[kk] += v
+	}
+	r.ntx, r.oktx, r.h = ntxRun, okRun, h
+	r.expOK, r.valid, r.initOK, r.bad, r.expDetail, r.initDetail = expOK, valid, initOK, bad2(bad), trunc(expDetail, 300), initDetail
+	r.sa0, r.sb0, r.blocks, r.diff = sa0, sb0, blocks, diff
+	return r
+}
+
+// writeTraces records the runs once per facet.  The trace of a facet holds that facet's view of every
+// run, one after the other; "chain.live" (whose Export/Import lines carry the profile tags) gets one
+// trace per profile.  Facets that differed in some run are written last: after a rejected trace
+// bin/check validates the rest of the file again, which is cheap when little is left.
+func (d *Driver) writeTraces(results []*runResult, only string) {
+	if len(results) == 0 {
+		return
+	}
+	type unit struct {
+		facet string
+		runs  []*runResult
+		dirty bool
+	}
+	var units []unit
 	for _, f := range Facets() {
 		if only != "" && f != only {
 			continue
 		}
-		isColl := f != "chain.live" && !strings.HasSuffix(f, ".tx")
-		grp := groupOfFacet(f)
-		if isColl && strings.HasSuffix(f, ".other") {
-			// the catch-all collection is recorded only if it ever holds a key
-			any := sa0.Count(f) > 0 || (sb0 != nil && sb0.Count(f) > 0)
-			for _, ob := range blocks {
-				any = any || ob.sa.Count(f) > 0 || ob.sb.Count(f) > 0
+		if f == "chain.live" {
+			var profs []string
+			by := map[string][]*runResult{}
+			for _, r := range results {
+				if _, ok := by[r.spec.Profile]; !ok {
+					profs = append(profs, r.spec.Profile)
+				}
+				by[r.spec.Profile] = append(by[r.spec.Profile], r)
 			}
-			if !any && only == "" {
+			for _, p := range profs {
+				u := unit{facet: f, runs: by[p]}
+				for _, r := range by[p] {
+					u.dirty = u.dirty || !r.valid || !r.initOK
+				}
+				units = append(units, u)
+			}
+			continue
+		}
+		isColl := !strings.HasSuffix(f, ".tx")
+		u := unit{facet: f, runs: results}
+		any := false
+		for _, r := range results {
+			if !isColl {
+				any = true
 				continue
 			}
-		}
-		c := tf.M{"seed": seed, "n": n, "k": k, "tunnels": g.tunnels, "dkg": g.dkg, "facet": f, "grp": grp}
-		d.W.Reset(c, tf.M{}, MakeScript(seed, n, k, g.tunnels, g.dkg, f).Steps)
-		d.Traces++
-		dg := func(s *Snapshot) string {
-			if !isColl || s == nil {
-				return "-"
+			any = any || r.sa0.Count(f) > 0 || (r.sb0 != nil && r.sb0.Count(f) > 0)
+			if r.sb0 != nil && r.sa0.Digest(f) != r.sb0.Digest(f) {
+				u.dirty = true
 			}
-			return s.Digest(f)
+			for _, ob := range r.blocks {
+				any = any || ob.sa.Count(f) > 0 || ob.sb.Count(f) > 0
+			}
 		}
-		d.W.Step("Run", tf.M{"blocks": n, "txs": ntxRun, "oktxs": okRun}, tf.M{"err": "none"}, tf.M{"h": int(h), "a": dg(sa0)})
-		d.W.Step("Export", tf.M{"h": int(h)}, tf.M{"ok": expOK, "valid": valid, "bad": bad2(bad), "detail": trunc(expDetail, 300)}, tf.M{})
-		d.W.Step("Import", tf.M{"ih": int(h + 1)}, tf.M{"ok": valid && initOK, "init": initOK, "detail": initDetail}, tf.M{})
+		if isColl && strings.HasSuffix(f, ".other") && !any && only == "" {
+			continue // the catch-all collection is recorded only if it ever holds a key
+		}
+		units = append(units, u)
+	}
+	sort.SliceStable(units, func(i, j int) bool { return !units[i].dirty && units[j].dirty })
+	for _, u := range units {
+		d.writeFacet(u.facet, u.runs)
+	}
+}
+
+func (d *Driver) writeFacet(f string, runs []*runResult) {
+	isColl := f != "chain.live" && !strings.HasSuffix(f, ".tx")
+	grp := groupOfFacet(f)
+	var specs []RunSpec
+	for _, r := range runs {
+		specs = append(specs, r.spec)
+	}
+	sc := MakeScript(specs, f)
+	c := tf.M{"facet": f, "grp": grp, "runs": sc.C["runs"]}
+	d.W.Reset(c, tf.M{}, sc.Steps)
+	d.Traces++
+	dg := func(s *Snapshot) string {
+		if !isColl || s == nil {
+			return "-"
+		}
+		return s.Digest(f)
+	}
+	for ri, r := range runs {
+		sa0, sb0 := r.sa0, r.sb0
+		d.W.Step("Run", tf.M{"run": ri + 1, "seed": r.spec.Seed, "profile": r.spec.Profile, "blocks": r.spec.N, "txs": r.ntx, "oktxs": r.oktx},
+			tf.M{"err": "none"}, tf.M{"h": int(r.h), "a": dg(sa0)})
+		d.W.Step("Export", tf.M{"h": int(r.h), "tag": r.xtag}, tf.M{"ok": r.expOK, "valid": r.valid, "bad": r.bad, "detail": r.expDetail}, tf.M{})
+		d.W.Step("Import", tf.M{"ih": int(r.h + 1), "tag": r.itag}, tf.M{"ok": r.valid && r.initOK, "init": r.initOK, "detail": r.initDetail}, tf.M{})
 		d.Events += 3
-		if !initOK {
+		if !r.initOK {
 			continue
 		}
 		first := ""
@@ -486,10 +651,10 @@ func (d *Driver) RunScript(sc tf.Script) {
 				first = fmt.Sprintf("A has %d keys, B has %d; first difference: %s", sa0.Count(f), sb0.Count(f), first)
 			}
 		}
-		d.W.Step("Compare", tf.M{"facet": f, "tag": f}, tf.M{"diff": diff, "first": first}, tf.M{"a": dg(sa0), "b": dg(sb0)})
+		d.W.Step("Compare", tf.M{"facet": f, "tag": f}, tf.M{"diff": r.diff, "first": first}, tf.M{"a": dg(sa0), "b": dg(sb0)})
 		d.Events++
-		diverged, exempt := false, !intact(grp, diff)
-		for _, ob := range blocks {
+		diverged, exempt := false, !intact(grp, r.diff)
+		for _, ob := range r.blocks {
 			var a, b, fd string
 			switch {
 			case f == "chain.live":
@@ -521,9 +686,6 @@ func (d *Driver) RunScript(sc tf.Script) {
 		if exempt {
 			d.Exempt[f]++
 		}
-	}
-	for kk, v := range g.Kinds {
-		d.Kinds[kk] += v
 	}
 }
 
